@@ -1575,6 +1575,10 @@ Error Assembler::_emit(InstId inst_id, const Operand_& o0, const Operand_& o1, c
         if (shift_type > uint32_t(ShiftOp::kROR) || shift_value >= op_size)
           goto InvalidImmediate;
 
+        // NEG|NEGS are aliases of SUB|SUBS (shifted register), which don't provide ROR.
+        if (shift_type == uint32_t(ShiftOp::kROR) && inst_id != Inst::kIdMvn)
+          goto InvalidImmediate;
+
         opcode.add_imm(shift_type, 22);
         opcode.add_imm(shift_value, 10);
         goto EmitOp;
@@ -1663,7 +1667,7 @@ Error Assembler::_emit(InstId inst_id, const Operand_& o0, const Operand_& o1, c
         uint64_t width = o2.as<Imm>().value_as<uint64_t>();
         uint32_t op_size = x ? 64 : 32;
 
-        if (lsb >= op_size || width == 0 || width > op_size)
+        if (lsb >= op_size || width == 0 || width > op_size - lsb)
           goto InvalidImmediate;
 
         uint32_t lsb32 = Support::neg(uint32_t(lsb)) & (op_size - 1);
